@@ -302,4 +302,24 @@ MUTANTS = [
         if self._solves > 1 and self.options_parser.instance_options[Instance_options.PC]:
             self.model.proj_lower_quotas = [0] * self.model.num_projects
 '''),
+    # ---------------------------------------------------------------- environment / representation (round 5 lessons)
+    ('c10_filename_normalised_textually', 'C10', OPT,
+     "        self.filename = args.filename\n",
+     "        self.filename = __import__('os').path.normpath(args.filename)\n"),
+    ('c05_project_ids_compared_by_identity', 'C05', LP,
+     "                        if lec_pair.projectID == pair.projectID:",
+     "                        if lec_pair.projectID is pair.projectID:"),
+    ('c18_threads_passed_positionally_as_gap', 'C18', LP,
+     """        self.solver = pulp.PULP_CBC_CMD(
+            msg=msg, 
+            timeLimit=timeLimit, 
+            threads=threads)""",
+     """        self.solver = pulp.PULP_CBC_CMD(True, msg, timeLimit, threads)"""),
+    ('c15_file_name_built_with_percent_template', 'C15', GHR,
+     """            f = open(args.outputdirectory + '/' + str(instance_number) + 
+            '.txt', 'w')""",
+     """            f = open((args.outputdirectory + '/%d.txt') % instance_number, 'w')"""),
+    ('c08_end_of_list_test_by_identity', 'C08', GSH,
+     "        elif i == len(pref_list) - 1 and in_tie:",
+     "        elif i is (len(pref_list) - 1) and in_tie:"),
 ]
